@@ -375,9 +375,9 @@ func hasCard4096(vals []uint64) bool {
 func histProfiles(seed int64, K int) []profSel {
 	inners := []string{"edge", "array", "thresh", "comb", "runs", "runthresh", "full", "mixed"}
 	keysets := gamma.KeySets
-	n := 2
+	n := 1
 	if behav.Thorough() {
-		n = 5
+		n = 4
 	}
 	out := []profSel{{inner: "edge", keyset: "low"}}
 	for i := 0; i < n; i++ {
